@@ -381,6 +381,9 @@ impl<'a> Gen<'a> {
             if base != 0 && base != PMAX {
                 price = Some((base / tick * tick).saturating_add(1 + self.r.below(tick as u64 - 1) as u32).min(PMAX - 1));
             }
+            if PMAX % tick != 0 && self.r.chance(0.12) {
+                price = Some(PMAX);
+            }
         }
         if self.p.modify_only_via_event || self.r.chance(0.35) {
             self.push(Op::Event { a, kind: EvKind::Modify, ord, price, vol });
@@ -474,6 +477,13 @@ impl<'a> Gen<'a> {
             _ => 1 + self.r.below((tick as u64 * 3).max(2)) as u32,
         };
         let vol = gen_vol(self.r, self.vol_kind);
+        if self.r.chance(0.08) {
+            // the two ends of the price domain as creation requests (created, never placed): 0 is a multiple of every tick
+            // size, 2^32-1 of the tick sizes that divide it
+            let price = if self.r.chance(0.5) { 0 } else { PMAX };
+            self.push(Op::Create { a, bid, vol, trader: 401, price: Some(price) });
+            return;
+        }
         if self.r.chance(0.5) {
             self.push(Op::Create { a, bid, vol, trader: 400, price: Some(price) });
         } else {
